@@ -931,19 +931,29 @@ fn b_stream_to_pdu(rng: &mut Rng, ctx: &Ctx) -> Built {
     let mut tags = Vec::new();
     let mut pos = 0usize;
     let mut bursts: Vec<(usize, usize)> = Vec::new();
+    // Some inputs also carry bursts longer than max_size. What becomes of such
+    // a burst's tail is not specified by the documentation, so these inputs
+    // have no executable specification (C10 skips them); chunking independence
+    // (C08) and the verdict rules (C09) are judged on them all the same.
+    let oversize_input = rng.chance(1, 5);
+    let mut has_oversize = false;
     while n > 0 && pos + 2 < n && bursts.len() < 20 {
-        let start = pos + rng.range(0, 50);
-        // Bursts that fit max_size only: what happens to an oversize burst's
-        // tail is not specified by the documentation.
-        let len = rng.range(1, std::cmp::min(300, max_size.saturating_sub(tail).max(1)));
+        // The earliest legal start is the sample on which the previous PDU is
+        // handed off (previous end + tail + 1): back-to-back bursts are routine.
+        let start = pos + if rng.chance(1, 3) { 0 } else { rng.range(0, 50) };
+        let fit = std::cmp::min(300, max_size.saturating_sub(tail).max(1));
+        let len = if oversize_input && rng.chance(1, 3) { rng.range(fit + 1, fit + 1 + 2 * max_size.min(200)) } else { rng.range(1, fit) };
         let end = start + len;
         if end >= n {
             break;
         }
+        if len > fit {
+            has_oversize = true;
+        }
         tags.push(InTag { pos: start, key: "burst".into(), val: TagValue::Bool(true) });
         tags.push(InTag { pos: end, key: "burst".into(), val: TagValue::Bool(false) });
         bursts.push((start, end));
-        pos = end + tail + 2;
+        pos = end + tail + 1;
     }
     // unrelated tags
     if n > 0 {
@@ -954,8 +964,8 @@ fn b_stream_to_pdu(rng: &mut Rng, ctx: &Ctx) -> Built {
     inp.set_tags(tags);
     let (b, o) = StreamToPdu::new(r, "burst", max_size, tail);
     Built {
-        dut: dut1("StreamToPdu<u8>", json!({"max_size": max_size, "tail": tail, "bursts": bursts.len()}), b, inp, vec![Box::new(PktOut::new(o))]),
-        spec: Some(Box::new(move |i| {
+        dut: dut1("StreamToPdu<u8>", json!({"max_size": max_size, "tail": tail, "bursts": bursts.len(), "oversize": has_oversize}), b, inp, vec![Box::new(PktOut::new(o))]),
+        spec: if has_oversize { None } else { Some(Box::new(move |i| {
             // A burst is the samples from the start tag up to (not including)
             // the end tag's sample, followed by `tail` samples after... the
             // implementation's documented behaviour: start sample included, the
@@ -979,7 +989,7 @@ fn b_stream_to_pdu(rng: &mut Rng, ctx: &Ctx) -> Built {
                 out.push(p);
             }
             vec![Data::PU8(out)]
-        })),
+        })) },
         tagspec: None,
         spec_ulps: 0,
     }
